@@ -183,6 +183,11 @@ def do_check(args, engine, lanes, prop, master_seed, t_start, ctx):
         done[0] += 1
         if res.get("status") != "ok":
             bad.append(i)
+        elif i >= 64:
+            # keep the master's memory flat in the thorough tier: the job still
+            # holds the record, only the first results keep their event samples
+            res.pop("record", None)
+            res.pop("events", None)
 
     def stop(res):
         if budget is not None and time.monotonic() - t_search > budget:
